@@ -124,6 +124,24 @@ CHECKS = {
               "cross-thread ==, identical observations vs a single-threaded fresh process, deadlock watchdog), which is test evidence, not proof."),
         design_ref='DESIGN.md section 7 / C15',
         technique='Coq proof of schedule independence of the locked state machine + lock-discipline audit + thread stress (supporting evidence)'),
+    'C01': dict(
+        text=("Machine-checked proof (Coq): for every typed marker syntax tree in scope (interpretable comparisons; carve-out of the property; in-list members that are "
+              "final releases) and every final-release environment X.Y.Z with python_version = X.Y and every extras set, the diagram the parser builds evaluates to "
+              "sem508, the direct PEP 508 reading (boolean connectives with dropped operands skipped, PEP 440 release comparison, string order / equality / substring "
+              "in both directions, extras by normalised membership). The text-to-syntax step (quotes, operand order, parentheses, white space, deprecated spellings) "
+              "is the extracted parser model tied to the crate in C06/C07; here: 3 layouts per tree must parse to the same marker, the five evaluation entry points "
+              "must agree, and evaluate() is compared with an independent Python reading, with the extracted sem508 and with the extracted model diagram."),
+        design_ref='DESIGN.md section 7 / C01',
+        technique='Coq proof (range semantics, rewrite correctness, induction over syntax) + differential correspondence + independent-reading oracle'),
+    'C17': dict(
+        text=("Machine-checked proof (Coq), for every answer of the PEP 440 oracles: each uninterpretable operand/operator combination (two literals, two keys, version key "
+              "against a key or non-version text, string key with ~=, extra with an ordering/containment operator) yields no expression and a warning of the matching kind; "
+              "interpretable comparisons are silent apart from invalid extra names (reported, kept, arbitrary); and/or chains skip dropped operands, so the result is the "
+              "marker with exactly those comparisons removed (TRUE if nothing remains). Reporter independence is structural in the model (the diagram is a function of tokens "
+              "and oracle answers). Tie: 150+ bogus comparisons alone and inserted at every position of random markers vs the crate (== with the pruned marker, warning kinds, "
+              "parse_reporter vs from_str) and vs the extracted parser."),
+        design_ref='DESIGN.md section 7 / C17',
+        technique='Coq proof (exhaustive case analysis of the typed dispatch, universally quantified oracles) + differential correspondence'),
 }
 
 PENDING = {}
